@@ -16,6 +16,7 @@
      AtomicSub c d        __sync_sub_and_fetch(&c,d), result discarded
      AtomicSubFetch c d   reg := __sync_sub_and_fetch(&c,d)
      Load c               reg := c                     (plain read)
+     AtomicLoad c         reg := c                     (atomic read, e.g. __sync_add_and_fetch(&c,0))
      Store c d            c := reg + d ; reg := reg+d  (plain write: second half of ++c / --c)
      BranchDestroyIfResultZero n
                           `if (reg > 0) return 0;` else the destroy path of node n runs
@@ -51,6 +52,7 @@ Inductive mop :=
 | AtomicSub (c : cell) (d : Z)
 | AtomicSubFetch (c : cell) (d : Z)
 | Load (c : cell)
+| AtomicLoad (c : cell)
 | Store (c : cell) (d : Z)
 | BranchDestroyIfResultZero (n : nat)
 | IfUnset (body : list mop)
@@ -158,6 +160,7 @@ Definition exec (t : nat) (m : cell -> Z) (ri : nat) (th : thread) (op : mop)
   | AtomicSubFetch c d =>
       let v := wrap32 (m c - d) in (wr m c v, set_reg th v, [EvAcc t c true v], ri)
   | Load c => (m, set_reg th (m c), [EvAcc t c false (m c)], ri)
+  | AtomicLoad c => (m, set_reg th (m c), [EvAcc t c true (m c)], ri)
   | Store c d => let v := wrap32 (reg th + d) in (wr m c v, set_reg th v, [EvAcc t c false v], ri)
   | BranchDestroyIfResultZero n =>
       if 0 <? reg th then (m, th, [], ri) else (m, th, [EvDestroy t n], ri)
@@ -287,6 +290,8 @@ Definition plain_put (n : nat) : list mop :=
 Definition casonce_get (n : nat) : list mop := [Load (RC n); CASOnce (RC n) 1].
 Definition reread_put (n : nat) : list mop :=
   [AtomicSub (RC n) 1; Load (RC n); BranchDestroyIfResultZero n].
+Definition reread_atomic_put (n : nat) : list mop :=
+  [AtomicSub (RC n) 1; AtomicLoad (RC n); BranchDestroyIfResultZero n].
 Definition local_seed : list mop :=
   [Load Seed; IfUnset [CallRandom; RetryIfUnset; CAS Seed (-1)]; ReadForHash Local].
 Definition noretry_seed : list mop :=
